@@ -11,7 +11,7 @@ use serde_json::json;
 use std::cell::RefCell;
 use std::collections::HashMap;
 
-const LIB_FAILS: &[&str] = &["array_get nohandle 0", "array_pop nohandle", "substring abc 9", "map_get", "array_length nohandle", "calc", "array_join nohandle ,"];
+const LIB_FAILS: &[&str] = &["array_get nohandle 0", "array_pop nohandle", "substring abc 9", "map_get", "array_length nohandle", "calc", "array_join nohandle ,", "assert_error planted-assert-error", "assert_error"];
 
 thread_local! {
     static LIB: RefCell<Option<HashMap<String, String>>> = RefCell::new(None);
